@@ -331,6 +331,10 @@ def run_property(pid: str, tier: str, seed: int, only_legs=None, n_override=None
     t0 = time.time()
     prop = registry.load(pid)
     known = Known(prop)
+    import glob
+
+    for old in glob.glob(os.path.join(VERIF_DIR, "replays", "%s-*.json" % pid)):
+        os.remove(old)
     legs = [l for l in prop.legs if not only_legs or l.name in only_legs]
     tasks = []
     for leg in legs:
